@@ -126,7 +126,14 @@ impl World {
 
     fn fmt_log(&mut self, who: &str, name: &str, recs: &[EventRecord], len: usize, root: Option<String>, lines: &mut Vec<String>) {
         let mut defs = vec![];
-        let toks: Vec<String> = recs.iter().map(|r| self.token(r, &mut defs, name)).collect();
+        let toks: Vec<String> = recs
+            .iter()
+            .map(|r| {
+                let odt: time::OffsetDateTime = r.time().clone().into();
+                let nanos = odt.unix_timestamp_nanos() - CLOCK_BASE as i128;
+                format!("{}@{nanos}", self.token(r, &mut defs, name))
+            })
+            .collect();
         lines.extend(defs.into_iter().map(|d| format!("!{d}")));
         lines.push(format!("{who} log {name} len={len} root={} toks={}", root.map(|r| r[..8].to_string()).unwrap_or("-".into()), toks.join(",")));
     }
